@@ -334,6 +334,31 @@ class SinkhornMidSpec(SinkhornFarSpec):
         return sp.csr_matrix(np.array(items, dtype=np.float64).reshape(len(items), 5)), {"vectors": VEC5M.copy()}
 
 
+class WassersteinSinkhornSpec(WassersteinSpec):
+    """WassersteinVectorizer(method="LOT_sinkhorn"): the regularised plans are computed for a chunk of rows at a time; the
+    pool contains an EMPTY distribution (a valid, if degenerate, item: the exact path gives it the zero vector)"""
+    name = "wasserstein_sinkhorn"
+    tol = 1e-4
+
+    def configs(self, tier):
+        return [{"metric": m, "method": "LOT_sinkhorn", "sinkhorn_chunk_size": c, "memory_size": ms}
+                for m in ("cosine", "euclidean") for c, ms in ((1, "2G"), (2, "2G"), (2, "96"))]
+
+    def pool(self, cfg, tier):
+        return [[1, 0, 0, 0], [0, 0, 0, 0], [1, 2, 0, 1], [0, 3, 0, 0.5]]
+
+
+class SinkhornEmptySpec(SinkhornSpec):
+    """SinkhornVectorizer with an empty distribution in the pool"""
+    name = "sinkhorn_empty"
+
+    def configs(self, tier):
+        return [{"metric": m, "chunk_size": c, "memory_size": "2G"} for m in ("cosine", "euclidean") for c in (1, 2, 32)]
+
+    def pool(self, cfg, tier):
+        return [[1, 0, 0, 0], [0, 0, 0, 0], [1, 2, 0, 1], [0, 3, 0, 0.5]]
+
+
 class ApproxWassersteinSpec(WassersteinSpec):
     name = "approx_wasserstein"
     tol = 1e-9
@@ -482,7 +507,7 @@ ROW_WISE = [NgramSpec(), SkipgramSpec(), LZSpec(), BPESpec(), HistogramSpec(), K
             WassersteinSpec(), WassersteinLilSpec(), SinkhornSpec(), ApproxWassersteinSpec(), InfoWeightSpec(),
             RowDenoiseSpec(), CountCompressionSpec(), SlidingWindowSpec()]
 COMPILED_ONLY = [LZHashedSpec()]
-EXTRA = [SinkhornFarSpec(), SinkhornMidSpec()]
+EXTRA = [SinkhornFarSpec(), SinkhornMidSpec(), WassersteinSinkhornSpec(), SinkhornEmptySpec()]
 SIDE_EFFECT = [InfoWeightUnsortedSpec(), RowDenoiseExplicitZeroSpec()]
 BY_NAME = {s.name: s for s in ROW_WISE + COMPILED_ONLY + EXTRA + SIDE_EFFECT}
 
